@@ -266,6 +266,11 @@ def run(ctx):
         for k, tg in enumerate([["src", srcs[0]], [".", "src"], [srcs[0], "./" + srcs[0], "src"], ["src", "src"]]):
             cli_cases.append({"files": proj, "config": CONFIG, "cmd": rng.choice(["magic-numbers", "nesting", "improper-logging"]), "targets": tg,
                               "id": "cli:overlapping-targets:%d:n%d" % (k, n), "n": n})
+    # --no-recursive: the parallel file collection must stop at the same depth
+    proj_nr = make_project(rng, 48, "nr")
+    for tg in (["src"], ["."], ["src", "bin"]):
+        cli_cases.append({"files": proj_nr, "config": CONFIG, "cmd": rng.choice(["magic-numbers", "improper-logging"]), "targets": tg, "post": ["--no-recursive"],
+                          "id": "cli:no-recursive:%s" % "+".join(tg), "n": 48})
     cli_cases.append({"files": make_project(rng, 20, "cb"), "config": bad_cfg, "cmd": "nesting", "targets": ["."], "id": "cli:invalid-config", "n": 20})
     # explicit (command- or group-level) --config file that is empty / comments only, while the project root has its own settings
     for j, (level, content) in enumerate([("cmd", ""), ("cmd", "# nothing configured here\n"), ("group", "{}\n"), ("cmd", "{}")]):
